@@ -143,12 +143,13 @@ impl Bank {
     }
 }
 
-/// a well-formed probe on a reserved address block (203.0.113.0/24 <-> 198.18.0.0/24)
+/// a well-formed probe on a reserved address block (203.0.113.1..4 <-> 198.18.0.0/24; the client
+/// ports differ from probe to probe, so every probe is a set of new connections)
 pub fn probe_frames(n: u64) -> Vec<Vec<u8>> {
     let mut r = Rng::from_parts(&[0xC01, n]);
     let mut frames = Vec::new();
     // TCP handshake with timestamps + HTTP/1.1 exchange
-    let ep = Endpoints::v4([203, 0, 113, (n % 250) as u8 + 1], 30000 + (n % 20000) as u16, [198, 18, 0, 7], 80);
+    let ep = Endpoints::v4([203, 0, 113, (n % 4) as u8 + 1], 30000 + (n % 20000) as u16, [198, 18, 0, 7], 80);
     let mut s = Script::new(ep, Link::Ethernet, 0x1000_0000 + n as u32, 0x2000_0000);
     let mut o = pkt::opt_mss(1460);
     o.extend(pkt::opt_sok());
@@ -162,7 +163,7 @@ pub fn probe_frames(n: u64) -> Vec<Vec<u8>> {
     s.s_data(b"HTTP/1.1 200 OK\r\nServer: nginx/1.24.0\r\nDate: Tue, 14 Nov 2023 22:13:20 GMT\r\nContent-Type: text/plain\r\nContent-Length: 2\r\n\r\nok");
     frames.extend(s.frames);
     // TLS ClientHello in two segments
-    let ep = Endpoints::v4([203, 0, 113, (n % 250) as u8 + 1], 50000 + (n % 10000) as u16, [198, 18, 0, 8], 443);
+    let ep = Endpoints::v4([203, 0, 113, (n % 4) as u8 + 1], 50000 + (n % 10000) as u16, [198, 18, 0, 8], 443);
     let mut s = Script::new(ep, Link::Ethernet, 7, 9);
     s.handshake();
     let hello = scenario::client_hello(&mut r, n, 0);
@@ -170,7 +171,7 @@ pub fn probe_frames(n: u64) -> Vec<Vec<u8>> {
     s.c_stream(&hello, &[cut]);
     frames.extend(s.frames);
     // HTTP/2 request
-    let ep = Endpoints::v4([203, 0, 113, (n % 250) as u8 + 1], 20000 + (n % 9000) as u16, [198, 18, 0, 9], 8080);
+    let ep = Endpoints::v4([203, 0, 113, (n % 4) as u8 + 1], 20000 + (n % 9000) as u16, [198, 18, 0, 9], 8080);
     let mut s = Script::new(ep, Link::RawIp, 77, 99);
     s.handshake();
     let (_req, res) = scenario::simple_h2(&mut r, n, false);
@@ -218,6 +219,28 @@ fn stateful_poisons(r: &mut Rng) -> Vec<Vec<Vec<u8>>> {
             s.s_data(&res);
             out.push(s.frames);
         }
+    }
+    // the same kinds of unfinished connection between the very hosts the probes use (other client
+    // ports): a connection that dies half-way must not affect the next connection of its host
+    for k in 1..=4u8 {
+        let h = scenario::client_hello(r, 100 + k as u64, 0);
+        let ep = Endpoints::v4([203, 0, 113, k], 1500 + k as u16, [198, 18, 0, 8], 443);
+        let mut s = Script::new(ep, Link::Ethernet, r.u32(), r.u32());
+        s.handshake();
+        s.c_data(&h[..(h.len() / 2).max(6)]);
+        out.push(s.frames);
+        let ep = Endpoints::v4([203, 0, 113, k], 1600 + k as u16, [198, 18, 0, 7], 80);
+        let mut s = Script::new(ep, Link::Ethernet, r.u32(), r.u32());
+        s.handshake();
+        s.c_data(b"POST /half HTTP/1.1\r\nHost: probe.example\r\nUser-Agent: ");
+        s.s_data(b"HTTP/1.1 200 OK\r\nServer: ");
+        out.push(s.frames);
+        let ep = Endpoints::v4([203, 0, 113, k], 1700 + k as u16, [198, 18, 0, 9], 8080);
+        let mut s = Script::new(ep, Link::RawIp, r.u32(), r.u32());
+        s.handshake();
+        let req = h2gen::request_bytes(&h2gen::settings(&[(1, 0), (3, 100)]), &blocks[(k as usize) % blocks.len()], &HeadersOpts::plain(1), &[]);
+        s.c_data(&req[..req.len() - 1]);
+        out.push(s.frames);
     }
     // TLS: a partial ClientHello that never completes, and a huge declared record
     let ep = Endpoints::v4([10, 66, 9, 1], 42000, [10, 67, 0, 2], 443);
